@@ -845,19 +845,35 @@ func extra7C20(c *Ctx) {
 				})
 				return found
 			}
+			// some condition on the way to the append reads the token's type or text (directly or through a
+			// local such as turnMarker := … v.Values[i] …); an atom that is known false counts only when it is
+			// part of a compound condition (`!marker && type != control` skipped)
 			ok := false
 			for _, a := range g.AtomsAt(h.Loc) {
-				if !a.Val {
-					continue
-				}
-				if mentions(a.Expr, fTypes) || mentions(a.Expr, fValues) {
+				if a.Val && (mentions(a.Expr, fTypes) || mentions(a.Expr, fValues)) {
 					ok = true
+				}
+			}
+			if !ok {
+				for _, fct := range g.Facts(h.Loc) {
+					if _, isBin := ast.Unparen(fct.Expr).(*ast.BinaryExpr); !isBin || fct.Val {
+						continue
+					}
+					be := ast.Unparen(fct.Expr).(*ast.BinaryExpr)
+					if be.Op != token.LAND && be.Op != token.LOR {
+						continue
+					}
+					for _, x := range expand(g, fct.Expr, 2) {
+						if mentions(x, fTypes) && mentions(x, fValues) || (mentions(x, fTypes) && len(expand(g, fct.Expr, 2)) > 1) {
+							ok = true
+						}
+					}
 				}
 			}
 			c.Check(rule, fn.Key()+" append:special#"+itoa(n)+" decided by type or text", c.Pos(h.Node), ok, "this token becomes special on a condition that reads neither its type nor its text")
 		}
 	}
-	c.Expect(rule, "appends to Vocabulary.special", n, 2)
+	c.Expect(rule, "appends to Vocabulary.special", n, 1)
 }
 
 // ---------------------------------------------------------------------------------- C12
@@ -933,9 +949,11 @@ func extra7C17(c *Ctx) {
 			b := core.PathOf(info, rs.Node.(*ast.CallExpr).Fun.(*ast.SelectorExpr).X)
 			feeds := false
 			for _, pc := range g.FindCalls("server.Model.parseToolCalls") {
-				for _, sc := range core.CallsTo(info, pc.Node, false, "strings.Builder.String") {
-					if p := core.PathOf(info, sc.Fun.(*ast.SelectorExpr).X); p.Valid() && b.Valid() && p.Root == b.Root {
-						feeds = true
+				for _, x := range expand(g, pc.Node, 2) { // the text may go through a local (`buffered := sb.String()`)
+					for _, sc := range core.CallsTo(info, x, false, "strings.Builder.String") {
+						if p := core.PathOf(info, sc.Fun.(*ast.SelectorExpr).X); p.Valid() && b.Valid() && p.Root == b.Root {
+							feeds = true
+						}
 					}
 				}
 			}
@@ -949,9 +967,11 @@ func extra7C17(c *Ctx) {
 					continue
 				}
 				usesBuf := false
-				for _, sc := range core.CallsTo(info, pr.Node, false, "strings.Builder.String") {
-					if p := core.PathOf(info, sc.Fun.(*ast.SelectorExpr).X); p.Valid() && p.Root == b.Root {
-						usesBuf = true
+				for _, x := range expand(g, pr.Node, 2) {
+					for _, sc := range core.CallsTo(info, x, false, "strings.Builder.String") {
+						if p := core.PathOf(info, sc.Fun.(*ast.SelectorExpr).X); p.Valid() && p.Root == b.Root {
+							usesBuf = true
+						}
 					}
 				}
 				rest := core.ResultVar(info, pr.Top, pr.Node.(*ast.CallExpr), 1)
